@@ -355,6 +355,7 @@ Section RingProofs.
     fi_cur : owner_holds s = true -> r_cur s <= length (r_data s (r_pi s)) /\ r_cur s <= B;
     fi_start : (r_ppc s = RPCtorWait \/ r_ppc s = RPSpawn) -> r_pend s = [] /\ r_cur s = 0;
     fi_rest : r_ppc s = RPRest -> r_cur s + length (r_pend s) <= B;
+    fi_fillgt : r_ppc s = RPFill -> B < r_cur s + length (r_pend s);
     fi_flush : r_flushes s = match r_cpc s with RCEnd | RCDone => 1 | _ => 0 end;
     fi_pois : (poison_posted s = true \/ r_ppc s = RPPoisonPost) ->
               nth (r_pa s - 1) (r_hist s) [] = [] /\ r_pend s = [] /\ r_prog s = [];
@@ -365,6 +366,7 @@ Section RingProofs.
   Proof.
     unfold rinit, ring_init. constructor; simpl; unfold curpart, owner_holds, poison_posted; simpl; auto.
     - intros n Hn. lia.
+    - intros H; discriminate.
     - intros H; discriminate.
     - intros H; discriminate.
     - intros [H|H]; discriminate.
@@ -432,7 +434,7 @@ Section RingProofs.
     pose proof (ri_pi s R) as Jpi.
     assert (Hst : r_cpc s = RCNotStarted -> r_flushes s = 0).
     { intros E. rewrite (fi_flush s F), E. reflexivity. }
-    destruct F as [Flen Ffile Fwin Fall Fok Fcur Fstart Frest Fflush Fpois Fdtor].
+    destruct F as [Flen Ffile Fwin Fall Fok Fcur Fstart Frest Ffillgt Fflush Fpois Fdtor].
     unfold curpart, owner_holds in *.
     (* goals after the owner left block r_pi s with content data'/size' *)
     assert (Hhand : forall data' size',
@@ -472,6 +474,7 @@ Section RingProofs.
           destruct (Nat.ltb B (length w)) eqn:Elt;
             constructor; runf; unfold curpart, owner_holds, allbytes; simpl; rewrite ?Epc in *; try ffin.
           all: try solve [intros _; apply Nat.ltb_ge in Elt; simpl in Elt; lia].
+          all: try solve [intros _; apply Nat.ltb_lt in Elt; simpl in Elt; lia].
         * rewrite andb_false_r.
           constructor; runf; unfold curpart, owner_holds, allbytes; simpl; rewrite ?Epc in *; try ffin.
           all: try solve [intros _; lia].
@@ -529,6 +532,8 @@ Section RingProofs.
           all: try solve [rewrite Hfb; exact Hall].
           all: try solve [intros _; unfold data'; rewrite upd_same; lia].
           all: try solve [intros _; apply Nat.ltb_ge in Elt; lia].
+        all: try solve [intros _; apply Nat.ltb_lt in Elt; simpl in *; lia].
+          all: try solve [intros _; apply Nat.ltb_lt in Elt; lia].
         * simpl in Hw.
           destruct (Nat.ltb B (r_cur s + length (r_pend s) + amount) && negb (Nat.eqb (r_cur s + length (r_pend s)) 0)) eqn:Esp.
           -- (* partial block handed over *)
@@ -565,6 +570,7 @@ Section RingProofs.
         destruct (Nat.ltb B (length (r_pend s))) eqn:Elt;
           constructor; runf; unfold curpart, owner_holds; simpl; rewrite ?Epc in *; try ffin.
         all: try solve [intros _; apply Nat.ltb_ge in Elt; lia].
+        all: try solve [intros _; apply Nat.ltb_lt in Elt; simpl in *; lia].
     - (* PoisonPost *)
       inversion H; subst s'; clear H.
       constructor; runf; unfold curpart, owner_holds; simpl; rewrite ?Epc in *; try ffin.
@@ -590,7 +596,7 @@ Section RingProofs.
     intros R F H. unfold ring_step_writer in H.
     destruct (rinv_room s R) as (Hle & _ & _ & Hlt).
     pose proof (ri_ci s R) as Jci.
-    destruct F as [Flen Ffile Fwin Fall Fok Fcur Fstart Frest Fflush Fpois Fdtor].
+    destruct F as [Flen Ffile Fwin Fall Fok Fcur Fstart Frest Ffillgt Fflush Fpois Fdtor].
     unfold curpart, owner_holds in *.
     destruct (r_cpc s) eqn:Ecpc; try discriminate.
     - inversion H; subst s'; clear H.
@@ -635,7 +641,7 @@ Section RingProofs.
     exists rest, r_file s ++ rest = allbytes prog0.
   Proof.
     intros Hr. destruct (rfinv_reachable s Hr) as [R F]. destruct (rinv_room s R) as (Hle & _).
-    destruct F as [Flen Ffile Fwin Fall Fok Fcur Fstart Frest Fflush Fpois Fdtor].
+    destruct F as [Flen Ffile Fwin Fall Fok Fcur Fstart Frest Ffillgt Fflush Fpois Fdtor].
     exists (concat (skipn (r_ca s) (r_hist s)) ++ curpart s ++ r_pend s ++ allbytes (r_prog s)).
     rewrite Ffile, app_assoc, <- concat_app, firstn_skipn. exact Fall.
   Qed.
@@ -649,7 +655,7 @@ Section RingProofs.
     intros Hr Hp Hc. destruct (rfinv_reachable s Hr) as [R F].
     pose proof (ri_exit s R) as Jexit. unfold cexiting, poison_posted in Jexit. rewrite Hc, Hp in Jexit.
     destruct (Jexit eq_refl) as [_ Hba].
-    destruct F as [Flen Ffile Fwin Fall Fok Fcur Fstart Frest Fflush Fpois Fdtor].
+    destruct F as [Flen Ffile Fwin Fall Fok Fcur Fstart Frest Ffillgt Fflush Fpois Fdtor].
     unfold poison_posted in Fpois. rewrite Hp in Fpois. destruct (Fpois (or_introl eq_refl)) as (Hnil & Hpe & Hpr).
     split; [|rewrite Fflush, Hc; reflexivity].
     unfold curpart, owner_holds in Fall. rewrite Hp, Hpe, Hpr in Fall. simpl in Fall. rewrite !app_nil_r in Fall.
@@ -659,4 +665,106 @@ Section RingProofs.
     - intros E. rewrite E in Flen. simpl in Flen. lia.
     - rewrite Flen. exact Hnil.
   Qed.
+
+  (* ---- termination: every step decreases a measure, so the destructor always gets through ---- *)
+  Definition rbase (s : rstate) : nat :=
+    6 * (length (r_pend s) + length (allbytes (r_prog s))) + 12 * length (r_prog s).
+  Definition mo (s : rstate) : nat :=
+    match r_ppc s with
+    | RPCtorWait => rbase s + 50
+    | RPSpawn => rbase s + 49
+    | RPFill => rbase s + 30 + (if Nat.ltb (r_cur s) B then 0 else 3)
+    | RPRest => rbase s + 30
+    | RPSpillPost false => rbase s + 32
+    | RPSpillWait false => rbase s + 31
+    | RPSpillPost true => 9
+    | RPSpillWait true => 8
+    | RPPoisonPost => 7 | RPPoisonWait => 6 | RPJoin => 5 | RPLeasePost => 4 | RPDone => 0
+    end.
+  Definition mc (s : rstate) : nat :=
+    match r_cpc s with
+    | RCNotStarted => 7 | RCBegin => 6 | RCWait => 5 | RCWrite => 4 | RCPostTrash => 6
+    | RCExitPost => 3 | RCFlush => 2 | RCEnd => 1 | RCDone => 0
+    end.
+  Definition rmeasure (s : rstate) : nat := 4 * mo s + 3 * (r_pa s - r_ca s) + mc s.
+
+  Lemma allbytes_cons o r : length (allbytes (o :: r)) = length (rop_bytes o) + length (allbytes r).
+  Proof. unfold allbytes. simpl. rewrite app_length. reflexivity. Qed.
+
+  Ltac rcbn := unfold rmeasure, mo, mc, rbase, r_set_p, r_set_c, r_set_sem, r_loop_test in *;
+               cbn [r_ppc r_cpc r_pend r_prog r_cur r_pa r_ca r_out r_trash r_data r_size r_pi r_ci r_file r_wsizes r_flushes r_hist] in *.
+
+  Lemma rmeasure_decreases s tid s' : RInv s -> FInv s -> ring_step K B s tid = Some s' -> rmeasure s' < rmeasure s.
+  Proof.
+    intros R F H. destruct (rinv_room s R) as (Hle & _ & _ & Hlt).
+    pose proof (ri_started s R) as Jst.
+    destruct F as [Flen Ffile Fwin Fall Fok Fcur Fstart Frest Ffillgt Fflush Fpois Fdtor].
+    destruct tid as [|[|tid]]; simpl in H; [| |discriminate].
+    - (* owner *)
+      unfold ring_step_owner in H.
+      destruct (r_ppc s) eqn:Epc.
+      + destruct (r_trash s); [discriminate|]. inversion H; subst s'; clear H. rcbn. rewrite Epc. lia.
+      + (* Spawn *)
+        assert (Ecp : r_cpc s = RCNotStarted) by (apply Jst; right; reflexivity).
+        destruct (Fstart (or_intror eq_refl)) as [Hp0 Hc0].
+        inversion H; subst s'; clear H. unfold r_next_write, r_dtor.
+        destruct (r_prog s) as [|[w|amount w] rest] eqn:Eprog.
+        * rcbn. rewrite Hc0. cbn [Nat.eqb]. rcbn. rewrite Epc, Ecp, Hp0, Eprog. cbn [length allbytes map concat]. lia.
+        * rcbn. rewrite Epc, Ecp, Hp0, Eprog, Hc0, allbytes_cons. cbn [length rop_bytes Nat.add].
+          destruct (Nat.ltb B (length w)); destruct (Nat.ltb 0 B); lia.
+        * rcbn. rewrite Hc0. cbn [Nat.eqb negb]. rewrite andb_false_r. rcbn.
+          rewrite Epc, Ecp, Hp0, Eprog, allbytes_cons. cbn [length rop_bytes]. lia.
+      + (* Fill *)
+        pose proof (Ffillgt eq_refl) as Hgt.
+        destruct (Nat.eqb B 0) eqn:EB0; [apply Nat.eqb_eq in EB0; lia|]. inversion H; subst s'; clear H. rcbn.
+        rewrite Epc, skipn_length.
+        destruct (Nat.ltb (r_cur s) B) eqn:Ec; [apply Nat.ltb_lt in Ec|apply Nat.ltb_ge in Ec]; lia.
+      + (* Rest *)
+        inversion H; subst s'; clear H. unfold r_next_write, r_dtor.
+        destruct (r_prog s) as [|[w|amount w] rest] eqn:Eprog.
+        * destruct (Nat.eqb (r_cur s + length (r_pend s)) 0); rcbn; rewrite Epc, Eprog; cbn [length allbytes map concat]; lia.
+        * rcbn. rewrite Epc, Eprog, allbytes_cons. cbn [length rop_bytes].
+          destruct (Nat.ltb B (r_cur s + length (r_pend s) + length w));
+            destruct (Nat.ltb (r_cur s + length (r_pend s)) B); lia.
+        * destruct (Nat.ltb B (r_cur s + length (r_pend s) + amount) && negb (Nat.eqb (r_cur s + length (r_pend s)) 0));
+            rcbn; rewrite Epc, Eprog, allbytes_cons; cbn [length rop_bytes]; lia.
+      + destruct dtor; inversion H; subst s'; clear H; rcbn; rewrite Epc; lia.
+      + destruct (r_trash s); [discriminate|].
+        destruct dtor; inversion H; subst s'; clear H; rcbn; rewrite Epc.
+        * lia.
+        * destruct (Nat.ltb B (0 + length (r_pend s))); [|lia].
+          destruct (Nat.ltb 0 B) eqn:E0; [lia|apply Nat.ltb_ge in E0; lia].
+      + inversion H; subst s'; clear H; rcbn; rewrite Epc; lia.
+      + destruct (r_trash s); [discriminate|]. inversion H; subst s'; clear H; rcbn; rewrite Epc; lia.
+      + destruct (r_cpc s) eqn:Ec; try discriminate. inversion H; subst s'; clear H; rcbn; rewrite Epc, Ec; lia.
+      + inversion H; subst s'; clear H; rcbn; rewrite Epc; lia.
+      + discriminate.
+    - (* writer *)
+      unfold ring_step_writer in H.
+      destruct (r_cpc s) eqn:Ec; try discriminate.
+      + inversion H; subst s'; clear H; rcbn; rewrite Ec; lia.
+      + destruct (r_out s); [discriminate|]. inversion H; subst s'; clear H; rcbn; rewrite Ec.
+        destruct (Nat.eqb (r_size s (r_ci s)) 0); lia.
+      + specialize (Hlt eq_refl). inversion H; subst s'; clear H; rcbn; rewrite Ec. lia.
+      + inversion H; subst s'; clear H; rcbn; rewrite Ec; lia.
+      + inversion H; subst s'; clear H; rcbn; rewrite Ec; lia.
+      + inversion H; subst s'; clear H; rcbn; rewrite Ec; lia.
+      + inversion H; subst s'; clear H; rcbn; rewrite Ec; lia.
+  Qed.
+
+  Lemma ring_run_measure ls : forall s s', RInv s -> FInv s -> run (ring_step K B) s ls = Some s' -> length ls + rmeasure s' <= rmeasure s.
+  Proof.
+    induction ls as [|l r IH]; intros s s0 R F H; simpl in H.
+    - inversion H; subst; simpl; lia.
+    - destruct (ring_step K B s l) as [s1|] eqn:E; [|discriminate].
+      pose proof (rmeasure_decreases _ _ _ R F E).
+      assert (R1 : RInv s1) by (eapply rinv_step; eauto).
+      assert (F1 : FInv s1).
+      { destruct l as [|[|l]]; simpl in E; [exact (finv_owner _ _ R F E)|exact (finv_writer _ _ R F E)|discriminate]. }
+      pose proof (IH _ _ R1 F1 H). simpl. lia.
+  Qed.
+
+  (* every schedule of constructor + writes + destructor is finite *)
+  Lemma ring_runs_bounded_proof ls s : run (ring_step K B) rinit ls = Some s -> length ls <= rmeasure rinit.
+  Proof. intros H. pose proof (ring_run_measure ls _ _ rinv_init finv_init H). lia. Qed.
 End RingProofs.
